@@ -9,8 +9,8 @@ OWNERS = {
     "pixels": {"C01", "C07", "C10"},
     "load_values": {"C01", "C02", "C19"},
     "load_error": {"C01", "C02", "C19"},
-    "line_meta": {"C03", "C07", "C10"},
-    "image_attrs": {"C03", "C07", "C10"},
+    "line_meta": {"C03", "C07", "C08", "C10"},
+    "image_attrs": {"C03", "C07", "C08", "C10"},
     "leader": {"C04", "C10"},
     "chunks": {"C06", "C07", "C10"},
     "types": {"C12", "C07"},
@@ -247,6 +247,7 @@ STANDARD = {
     "C06": [("MC_Alos2_sim_cache", ["cached_rpcs"], None, ("P",), (300, 2000), (24, 240), 12)],
     "C07": [("MC_Alos2_sim_redeliver", ["refresh", "cached_opens"], None, ("P", "Q"), (400, 2000), (24, 240), 12),
             ("MC_Alos2_sim_cache", ["cached_rpcs", "cached_opens"], None, ("P",), (300, 2000), (16, 160), 12)],
+    "C08": [("MC_Alos2_sim_cache", ["cached_opens", "cached_rpcs"], ["cached_opens"], ("P",), (300, 1500), (16, 160), 12)],
     "C09": [("MC_Alos2_sim_cache", ["torn", "cachedir"], None, ("P",), (300, 2000), (24, 240), 12)],
     "C10": [("MC_Alos2_sim_all", ["cached_opens", "torn", "two_locs"], ["cached_opens", "torn"], ("P", "Q"), (300, 3000), (24, 400), 14),
             ("MC_Alos2_sim_cache", ["cachedir", "torn"], None, ("P",), (300, 2000), (16, 200), 12)],
@@ -268,6 +269,7 @@ PROFILES = {
     "C04": (dict(open=40, redeliver=14, load=5, mutate=0, damage=2, tear=2), (0, 1)),
     "C06": (dict(open=42, cli=12, redeliver=6, load=6, mutate=0, damage=0, restore=0), (0, 1)),
     "C07": (dict(open=42, cli=12, redeliver=10, load=6, mutate=0, damage=0, restore=0, tear=6), (0, 1)),
+    "C08": (dict(open=45, cli=12, load=10, mutate=12, copy=4, redeliver=0, damage=0, restore=0, tear=0, cachedir=0, block=0), (0,)),
     "C09": (dict(open=42, cli=8, tear=16, delete=6, cachedir=8, load=3, mutate=0, redeliver=0, damage=0, restore=0), (0, 1)),
     "C10": (dict(), (0, 1)),
     "C12": (dict(open=42, cli=12, redeliver=6, load=8, copy=6, damage=0, restore=0), (0, 1)),
@@ -280,7 +282,7 @@ PROFILES = {
 
 
 # properties whose history patterns need several steps at ONE location (index made, used, product redelivered, index made again, used)
-TRACE_LOCS = {"C07": ("P",), "C06": ("P",), "C09": ("P",), "C12": ("P",), "C13": ("P",)}
+TRACE_LOCS = {"C07": ("P",), "C08": ("P",), "C06": ("P",), "C09": ("P",), "C12": ("P",), "C13": ("P",)}
 
 
 def standard(chk):
